@@ -377,6 +377,142 @@ def asgi_initial_position(run, v: Verdicts):
 
 
 # ---------------------------------------------------------------------------
+# R4: whatever drains the stream leaves nothing behind
+# ---------------------------------------------------------------------------
+
+BUFFER = 'self._buffer'
+_BUF_E = ast.parse(BUFFER, mode='eval').body
+_BUF_ATOM = ('v', BUFFER)
+
+
+def _last_decision(cfg, steps, f):
+    tests = [cfg.node(i) for i, l in steps if cfg.node(i).kind == 'test' and l in ('T', 'F')]
+    if not tests:
+        return '%s returns' % f.name
+    t = tests[-1]
+    return ('while ' if isinstance(t.stmt, ast.While) and t.ast is t.stmt.test else 'if ') + unparse(t.ast)
+
+
+def asgi_drained(run, v: Verdicts, f):
+    """exhaust() / readall() / the body iterator promise that nothing of the body is left when they return normally.
+    Data that has been received but not handed out sits in `_buffer`; the budget only counts what is still to be received.
+    Every normal return therefore leaves the buffer empty AND the budget at 0, and a method that hands nothing out
+    (exhaust) has advanced the position by exactly the buffered bytes it dropped.
+
+    Decided per acyclic segment (entry / loop heads as cut points) with two loop invariants that are inferred, not assumed:
+    `the buffer is empty at the loop head` (base: every entry->head segment proves it; step: every head->head segment keeps
+    it) and `the budget is >= 0 at the loop head`.  A violation needs positive evidence: a path from the function ENTRY
+    on which the field still holds its entry value, with no fact on the path that excludes a non-empty buffer / a positive
+    budget.  Anything else that cannot be proved is an unknown idiom."""
+    p = run.project
+    require_attrs(p, ASGI, [BUDGET, POS, RECEIVE, BUFFER])
+    cfg = cfg_of(f, p)
+    run.use_cfg(cfg)
+    inl = Inliner(p, p.cls(ASGI), lambda h: not any(isinstance(c, ast.Call) and dotted(c.func) == RECEIVE for c in walk_self(h.node)))
+    heads = set(loop_heads(cfg))
+    segs = [(s, st, e) for (s, st, e) in segments(cfg) if e in heads or e == cfg.exit]
+    produces = any(isinstance(x, (ast.Yield, ast.YieldFrom)) or (isinstance(x, ast.Return) and x.value is not None) for x in walk_self(f.node))
+    blen0 = Lin.atom(('len', _BUF_ATOM))
+
+    def execute(start, steps, nat, inv):
+        env = Env(_on_call_inl)
+        env.kind[_BUF_ATOM] = 'seq'
+        env.declare(POS, 'nat')
+        if start == cfg.entry or nat:
+            env.declare(BUDGET, 'nat')      # entry: class invariant (R4 'budget' + R5 constructor); head: inferred below
+        if start != cfg.entry and inv:
+            env.add_eq(blen0, 0)
+        return [e for e in run_steps_inl(env, cfg, steps, inl, on_node=_tracker(None)) if not any(k == 'raise' for k, _v, _n in e.log)]
+
+    def buf_len(e):
+        return e.length(e.eval(_BUF_E), BUFFER)
+
+    def untouched(e, expr, name):
+        val = e.eval(expr)
+        return isinstance(val, Lin) and Env.same(val, Lin.atom(('v', name)))
+
+    # ---- inferred loop invariants
+    to_head = [(s, st, e) for (s, st, e) in segs if e in heads]
+    nat = bool(to_head) and all(isinstance(e.eval(_BUDGET_E), Lin) and e.prove_le(0, e.eval(_BUDGET_E))
+                                for (s, st, _e) in to_head for e in execute(s, st, True, False))
+    base = all(e.prove_eq(buf_len(e), 0) for (s, st, _e) in to_head if s == cfg.entry for e in execute(s, st, nat, False))
+    inv = base and all(e.prove_eq(buf_len(e), 0) for (s, st, _e) in to_head if s != cfg.entry for e in execute(s, st, nat, True))
+    never_after = all(untouched(e, _BUF_E, BUFFER) for (s, st, _e) in segs if s != cfg.entry for e in execute(s, st, nat, False))
+    leaves_loop = any(s != cfg.entry and e == cfg.exit for (s, _st, e) in segs)
+
+    w_buf = '%s() returns only with the receive buffer emptied (received data is handed out or discarded, never left behind)' % f.name
+    w_bud = '%s() returns only with the budget at 0 (nothing is left to be received)' % f.name
+    w_pos = '%s() advances the position by exactly the buffered bytes it drops' % f.name
+    rw_buf = ('the whole body arrives in the first event (or a sized read pulled in the final event and returned part of it): after %s() '
+              'eof stays False, tell() is short and later reads still return body data' % f.name)
+    n = 0
+    for (start, steps, end) in segs:
+        wit = flow.describe_path(cfg, [s[0] for s in steps])
+        cons = _last_decision(cfg, steps, f)
+        for e in execute(start, steps, nat, inv):
+            if any(k == 'selfcall' for k, _v, _n in e.log):
+                v.unknown('%s: delegates to another stream operation; what is left behind cannot be judged here' % f.qual)
+                continue
+            n += 1
+            lb = buf_len(e)
+            empty = e.prove_eq(lb, 0)
+            from_entry_untouched = start == cfg.entry and untouched(e, _BUF_E, BUFFER) and e.fork().add_le(1, lb)
+            if start != cfg.entry and not inv and untouched(e, _BUF_E, BUFFER):
+                pass            # judged where the invariant fails to be established (the segment that reaches the loop head)
+            elif end == cfg.exit:
+                if empty:
+                    v.note(f, 'drained: buffer', w_buf, True)
+                elif from_entry_untouched:
+                    v.note(f, 'drained: buffer', w_buf, False, cons,
+                           '%s() can return after `%s` without having touched %s, and nothing on that path says the buffer is empty '
+                           '(the budget only counts what is still to be received)' % (f.name, cons, BUFFER), wit, rw_buf)
+                else:
+                    v.unknown('%s: cannot tell whether %s is empty when the method returns after `%s`' % (f.qual, BUFFER, cons))
+            elif not inv:
+                # the loop is entered (or re-entered) with a buffer that is not known to be empty
+                if empty:
+                    pass
+                elif from_entry_untouched and never_after and leaves_loop:
+                    loop = cfg.node(end)
+                    lcons = 'while ' + unparse(loop.ast) if loop.kind == 'test' else unparse(loop.stmt.iter)
+                    v.note(f, 'drained: buffer', w_buf, False, lcons,
+                           '%s() reaches `%s` (after `%s`) without having touched %s and never touches it afterwards: '
+                           'buffered data survives the call' % (f.name, lcons, cons, BUFFER), wit, rw_buf)
+                else:
+                    v.unknown('%s: cannot tell whether %s is empty when the receive loop is entered after `%s`' % (f.qual, BUFFER, cons))
+            if end == cfg.exit:
+                bud = e.eval(_BUDGET_E)
+                if isinstance(bud, Lin) and e.prove_eq(bud, 0):
+                    v.note(f, 'drained: budget', w_bud, True)
+                elif start == cfg.entry and isinstance(bud, Lin) and untouched(e, _BUDGET_E, BUDGET) and e.fork().add_le(1, bud):
+                    v.note(f, 'drained: budget', w_bud, False, cons,
+                           '%s() can return after `%s` with the budget untouched and possibly positive' % (f.name, cons), wit,
+                           'part of the body has not been received yet: %s() returns early, eof stays False and the rest of the body is '
+                           'delivered to whoever reads next' % f.name)
+                elif start != cfg.entry and v.items.get((f.qual, 'budget'), {}).get('fails'):
+                    pass            # the loop body's budget update is already reported
+                else:
+                    v.unknown('%s: cannot tell whether the budget is 0 when the method returns after `%s`' % (f.qual, cons))
+            if not produces and e.ghost.get('event') is None:
+                dpos = e.eval(_POS_E) - e.var(POS)
+                want = blen0 - lb
+                ok = isinstance(dpos, Lin) and e.prove_eq(dpos, want)
+                if not ok and (not isinstance(dpos, Lin) or (dpos - want).tainted()):
+                    v.unknown('%s: %s' % (f.qual, '; '.join(e.notes[:2])))
+                else:
+                    v.note(f, 'drained: position', w_pos, ok, e.ghost.get('last_pos', '%s with %s' % (POS, BUFFER)),
+                           'the position advances by %r while %r buffered bytes are dropped' % (dpos, want), wit,
+                           'tell() disagrees with the number of body bytes consumed so far')
+    if n == 0:
+        raise UnknownIdiom('%s: no normal way out of the method was found' % f.qual)
+
+
+def _on_call_inl(env, call):
+    looked = Inliner.value_of(env, call)
+    return looked if looked is not None else _on_call(env, call)
+
+
+# ---------------------------------------------------------------------------
 # R6
 # ---------------------------------------------------------------------------
 
